@@ -47,12 +47,15 @@ class patched:
             elif k in U.__dict__: delattr(U, k)
 
 
-def parse_numeral(text, V, negative):
+TABLES = {'cap': {-12: 'p', -9: 'n', -6: 'μ', -3: 'm'}, 'k': {3: 'k'}, 'mk': {-6: 'u', -3: 'm', 3: 'k'}}
+
+
+def parse_numeral(text, V, negative, table=None):
     """-> dict(kind='inf'|'num', M mantissa value, E total exponent, pp, pre, post) ; None if the text is not a numeral"""
     if text in ('∞', '-∞'): return {'kind': 'inf', 'neg': text.startswith('-')}
     INTP = '(?:\x02(\\d+)\\|d\x03|(-?\\d+))'
     FRAC = '(?:\x02(\\d+)\\|0(\\d+)d\x03|(\\d+))'
-    m = re.fullmatch(INTP + '(?:\\.' + FRAC + ')?(?:e(-?\\d+))?([a-zA-Z]?)', text)
+    m = re.fullmatch(INTP + '(?:\\.' + FRAC + ')?(?:e(-?\\d+))?([a-zA-Zμ]?)', text)
     if not m: return None
     toks = core.CTX.extra.get('tokens', []) if V.sym else []
     g = m.groups()          # 0 pre-token, 1 pre-digits, 2 post-token, 3 post-width, 4 post-digits, 5 ext, 6 prefix
@@ -63,7 +66,7 @@ def parse_numeral(text, V, negative):
     m = type('M', (), {'group': lambda s_, i, _g=g: {4: _g[5], 5: _g[6]}[i]})()
     ext = int(m.group(4)) if m.group(4) is not None else 0
     pf = m.group(5) or ''
-    inv = {v: k for k, v in PREFIX.items()}
+    inv = {v: k for k, v in (table or PREFIX).items()}
     if pf and pf not in inv: return None
     E = ext + (inv[pf] if pf else 0)
     frac = post * (F(1, 10 ** pp) if V.sym else 10.0 ** (-pp))
@@ -71,9 +74,9 @@ def parse_numeral(text, V, negative):
     return {'kind': 'num', 'M': M, 'E': E, 'pp': pp, 'pre': pre, 'post': post, 'ext': ext, 'prefix': pf}
 
 
-def numeral_obligations(V, text, v, a, k, p, negative, name, in_range, obs):
+def numeral_obligations(V, text, v, a, k, p, negative, name, in_range, obs, table=None):
     """v: the value, a = |v|, 10^k <= a < 10^(k+1)"""
-    pr = parse_numeral(text, V, negative)
+    pr = parse_numeral(text, V, negative, table)
     if pr is None:
         obs.append(Ob(f'{name}: rendered text is a numeral ({text!r})', 1)); return None
     if pr['kind'] == 'inf':
@@ -112,9 +115,16 @@ def execute(cfg, V):
             k, p, up, neg = cfg['k'], cfg['p'], cfg['prefix'], cfg['neg']
             v, a = value_in_decade(V, 'v', k, neg)
             P = core.XInt(p) if V.sym else p
-            sf = U.ScientificFloat(value=v, precision=P, use_exp_prefix=up)
+            table = TABLES.get(cfg.get('table'))
+            if table is not None:
+                sf = U.ScientificFloat(value=v, precision=P, use_exp_prefix=up, exp_prefixes=dict(table))
+                lo_ok = min(table) - 3 - 3; hi_ok = max(table) + 2          # decades a one- or two-sided table can still express
+                in_range = (k - p + 1) <= max(table) and k >= -15
+            else:
+                sf = U.ScientificFloat(value=v, precision=P, use_exp_prefix=up)
+                in_range = -15 <= k <= 14
             text = sf.__str__()
-            numeral_obligations(V, text, v, a, k, p, neg, 'float', -15 <= k <= 14, obs)
+            numeral_obligations(V, text, v, a, k, p, neg, 'float', in_range, obs, table)
             if cfg.get('twin'):
                 obs = [Ob('twin', v - a * 3, [1], rel='ge')] if not neg else [Ob('twin', v, [1], rel='ge')]
             return obs
@@ -172,9 +182,9 @@ def classify(cfg, v):
     inp = v.get('inputs', {})
     failed = ' '.join(str(x) for x in v['sig'].get('symbolic_failed', ()))
     def near_one(a, p): return a is not None and 1 - 0.5 * 10.0 ** (-p) - 1e-12 <= abs(a) < 1
-    if cfg['kind'] in ('float', 'parts') and cfg['k'] == -1 and near_one(inp.get('v'), cfg['p']) and cfg['p'] >= 4 and 'infinity' not in failed:
+    if cfg['kind'] in ('float', 'parts') and cfg['k'] == -1 and near_one(inp.get('v'), cfg['p']):
         return 'value_in_[1-0.5*10^-p,1)_rounds_up_to_one'
-    if cfg['kind'] == 'complex' and cfg['p'] >= 4 and ((cfg['kr'] == -1 and near_one(inp.get('re'), cfg['p'])) or (cfg['ki'] == -1 and near_one(inp.get('im'), cfg['p']))):
+    if cfg['kind'] == 'complex' and ((cfg['kr'] == -1 and near_one(inp.get('re'), cfg['p'])) or (cfg['ki'] == -1 and near_one(inp.get('im'), cfg['p']))):
         return 'value_in_[1-0.5*10^-p,1)_rounds_up_to_one'
     if cfg['kind'] == 'float' and cfg.get('prefix') and 'infinity sign only beyond the range' in failed and cfg['k'] in (13, 14) and cfg['k'] + 1 - cfg['p'] > 12:
         return 'prefix_mode_saturates_below_1e15_for_low_precision'
@@ -216,6 +226,10 @@ def configs(tier, seed):
                 for neg in (False, True):
                     cfgs.append({'kind': 'float', 'k': k, 'p': p, 'prefix': up, 'neg': neg})
             cfgs.append({'kind': 'parts', 'k': k, 'p': p, 'neg': False})
+    for tname in TABLES:
+        for k in range(-14, 7):
+            for p in (3, 4) if tier == 'quick' else (2, 3, 4, 5):
+                cfgs.append({'kind': 'float', 'k': k, 'p': p, 'prefix': True, 'neg': False, 'table': tname})
     for kr, ki in [(0, 0), (2, -1), (-3, 1), (-5, -7), (3, 3), (0, -2), (4, 0)]:
         for nr in (False, True):
             for ni in (False, True):
